@@ -1,9 +1,9 @@
 SPECIFICATION Spec
 CONSTANTS
   N = 3
-  FlushEach = FALSE
+  FlushEach = TRUE
   ReadAhead = FALSE
-  Shape = "bidi"
+  Shape = "cstream"
   FlushShapes = {"bidi", "cstream"}
   Buffered = FALSE
 INVARIANT TypeOK
